@@ -907,7 +907,7 @@ impl<'a> VisitMut for Rw<'a> {
                 } else if segs.len() >= 2 && segs[segs.len() - 1] == "ZERO" && (segs[0] == "uom" || segs[0] == "Q" || self.opts.instantiate.contains_key(&segs[0])) {
                     self.fire("R-UNIT.zero");
                     replacement = Some(parse_quote!(Q::zero()));
-                } else if segs.len() == 2 && segs[0] == "ValidationErrors" {
+                } else if segs.len() == 2 && (segs[0] == "ValidationErrors" || segs[0] == "ComboErrors") {
                     let l = p.path.segments.last().unwrap().clone();
                     self.fire("R-ERR.valerrors");
                     replacement = Some(parse_quote!(VErrors::#l));
@@ -1686,6 +1686,30 @@ fn process_fn(req: &ItemReq, opts: &Opts, file: &syn::File, uc: &BTreeMap<String
     };
     rw.visit_signature_mut(&mut sig);
     rw.visit_block_mut(&mut block);
+    // R-MUTPARAM: `mut x: T` becomes `x: T` with `let mut x = x;` as first statement, so that a contract's `x` is
+    // unambiguously the value at entry (same semantics)
+    {
+        let mut shadows: Vec<Stmt> = vec![];
+        for inp in sig.inputs.iter_mut() {
+            if let syn::FnArg::Typed(pt) = inp {
+                if let syn::Pat::Ident(pi) = &mut *pt.pat {
+                    if pi.mutability.is_some() && pi.by_ref.is_none() {
+                        pi.mutability = None;
+                        let id = pi.ident.clone();
+                        shadows.push(parse_quote!(let mut #id = #id;));
+                        rw.fire("R-MUTPARAM");
+                    }
+                }
+            }
+        }
+        if !shadows.is_empty() {
+            // keep the vx_contract! marker first
+            let pos = block.stmts.iter().position(|s| !is_marker_stmt(s)).unwrap_or(block.stmts.len());
+            for (k, sh) in shadows.into_iter().enumerate() {
+                block.stmts.insert(pos + k, sh);
+            }
+        }
+    }
     if !rw.errors.is_empty() {
         out.error = Some(rw.errors.join("; "));
     }
